@@ -114,24 +114,35 @@ theorem normalize_semD {d : List (DomVar (Ext K))} {S : String → Prop} {lhs rh
     · have h' : (match cmpHolds (Arith.zero : Ext K) cmp' (Ext.fin k), cmpHolds (Arith.one : Ext K) cmp' (Ext.fin k) with
           | false, true => some (Normalized.assertion e' true)
           | true, false => some (Normalized.assertion e' false)
-          | true, true => some Normalized.tautology
-          | false, false => some Normalized.contradiction) = some nz := by
+          | true, true => if Exp.mayBeUndefined e' then none else some Normalized.tautology
+          | false, false => if Exp.mayBeUndefined e' then none else some Normalized.contradiction) = some nz := by
         cases e' with
         | num v => exact absurd ⟨v, rfl⟩ hnum
         | _ => exact h
       simp only [ar_zero, ar_one, cmpHolds_fin] at h'
       have htr : ∀ t : Bool, HasTruth e' t ρ ↔ x = ofBool t := by
         intro t; simp [HasTruth, hx]
-      split at h' <;> simp at h' <;> subst h' <;> simp only [NormSemD, hcmp]
-      all_goals rename_i h0 h1
-      · refine ⟨hwhich, ?_⟩
+      split at h'
+      · rename_i h0 h1
+        simp at h'; subst h'; simp only [NormSemD, hcmp]
+        refine ⟨hwhich, ?_⟩
         rw [htr]
         rcases h01 with rfl | rfl <;> simp [h0, h1, ofBool]
-      · refine ⟨hwhich, ?_⟩
+      · rename_i h0 h1
+        simp at h'; subst h'; simp only [NormSemD, hcmp]
+        refine ⟨hwhich, ?_⟩
         rw [htr]
         rcases h01 with rfl | rfl <;> simp [h0, h1, ofBool]
-      · rcases h01 with rfl | rfl <;> simp [h0, h1]
-      · rcases h01 with rfl | rfl <;> simp [h0, h1]
+      · rename_i h0 h1
+        split at h'
+        · simp at h'
+        · simp at h'; subst h'; simp only [NormSemD, hcmp]
+          rcases h01 with rfl | rfl <;> simp [h0, h1]
+      · rename_i h0 h1
+        split at h'
+        · simp at h'
+        · simp at h'; subst h'; simp only [NormSemD, hcmp]
+          rcases h01 with rfl | rfl <;> simp [h0, h1]
 
 /-! ### one loop step -/
 
